@@ -54,29 +54,29 @@ theorem process_idempotent (plug : Registry → Plug) (s : Session) (h : List Op
 
 /-- A rejected load (`Parse` returned an error: parser, AST builder or `add`) leaves the state
 *equal* to the state before. -/
-theorem failed_load_state_eq (plug : Registry → Plug) (s : Session) (f : SrcFile) (ok : Bool) (w : Reject)
-    (h : (step plug s (.load f ok)).2 = .rejected w) : (step plug s (.load f ok)).1 = s :=
-  step_rejected_state plug s f ok w h
+theorem failed_load_state_eq (plug : Registry → Plug) (s : Session) (src : Src) (w : Reject)
+    (h : (step plug s (.load src)).2 = .rejected w) : (step plug s (.load src)).1 = s :=
+  step_rejected_state plug s src w h
 
 /-- … so no later history of loads, processing runs and reads can tell the two apart. -/
-theorem failed_load_indistinguishable (plug : Registry → Plug) (s : Session) (f : SrcFile) (ok : Bool) (w : Reject)
-    (h : (step plug s (.load f ok)).2 = .rejected w) :
-    Indistinguishable plug (step plug s (.load f ok)).1 s := by
+theorem failed_load_indistinguishable (plug : Registry → Plug) (s : Session) (src : Src) (w : Reject)
+    (h : (step plug s (.load src)).2 = .rejected w) :
+    Indistinguishable plug (step plug s (.load src)).1 s := by
   intro later
-  rw [failed_load_state_eq plug s f ok w h]
+  rw [failed_load_state_eq plug s src w h]
 
 /-- A load anywhere in a history that is answered `rejected`: cutting it out of the history
 changes neither any other answer nor the final state — the set behaves, for every later load,
 processing run and read, exactly as if the failed text had never been offered. -/
-theorem failed_load_no_trace (plug : Registry → Plug) (s : Session) (pre post : List Op) (f : SrcFile) (ok : Bool) (w : Reject)
-    (h : (runFrom plug s (pre ++ .load f ok :: post)).2[pre.length]? = some (.rejected w)) :
-    (runFrom plug s (pre ++ .load f ok :: post)).1 = (runFrom plug s (pre ++ post)).1 ∧
-    (runFrom plug s (pre ++ .load f ok :: post)).2.eraseIdx pre.length = (runFrom plug s (pre ++ post)).2 := by
+theorem failed_load_no_trace (plug : Registry → Plug) (s : Session) (pre post : List Op) (src : Src) (w : Reject)
+    (h : (runFrom plug s (pre ++ .load src :: post)).2[pre.length]? = some (.rejected w)) :
+    (runFrom plug s (pre ++ .load src :: post)).1 = (runFrom plug s (pre ++ post)).1 ∧
+    (runFrom plug s (pre ++ .load src :: post)).2.eraseIdx pre.length = (runFrom plug s (pre ++ post)).2 := by
   have hl : (runFrom plug s pre).2.length = pre.length := runFrom_length plug s pre
   rw [runFrom_append, runFrom_cons] at h
   simp only [List.getElem?_append_right (Nat.le_of_eq hl), hl, Nat.sub_self, List.getElem?_cons_zero,
     Option.some.injEq] at h
-  have hs := step_rejected_state plug (runFrom plug s pre).1 f ok w h
+  have hs := step_rejected_state plug (runFrom plug s pre).1 src w h
   constructor
   · rw [runFrom_append, runFrom_cons, runFrom_append, hs]
   · rw [runFrom_append, runFrom_cons, runFrom_append, hs]
@@ -87,7 +87,7 @@ theorem failed_load_no_trace (plug : Registry → Plug) (s : Session) (pre post 
 /-- The registry a history leaves behind is the one obtained by loading, in order, exactly the
 texts whose load the caller saw accepted; rejected texts, processing runs and reads do not enter. -/
 theorem load_order_of_accepted_only (plug : Registry → Plug) (opts : Opts) (h : List Op) :
-    (after plug opts h).reg = loadFiles (goodTexts plug opts h) ∧ (after plug opts h).opts = opts :=
+    (after plug opts h).reg = loadSrcs (goodTexts plug opts h) ∧ (after plug opts h).opts = opts :=
   ⟨runFrom_reg plug { opts := opts } h, runFrom_opts plug { opts := opts } h⟩
 
 /-- Offered as a batch to a fresh set, the good texts of a history are all accepted, in their
@@ -102,7 +102,7 @@ theorem good_texts_batch (plug : Registry → Plug) (opts : Opts) (h : List Op) 
 order, exactly the accepted texts that precede it. -/
 theorem process_outcome (plug : Registry → Plug) (opts : Opts) (pre post : List Op) :
     (run plug opts (pre ++ .process :: post))[pre.length]? =
-      some (.processed (processAll (loadFiles (goodTexts plug opts pre)) opts (plug (loadFiles (goodTexts plug opts pre))))) := by
+      some (.processed (processAll (loadSrcs (goodTexts plug opts pre)) opts (plug (loadSrcs (goodTexts plug opts pre))))) := by
   have hl : (runFrom plug { opts := opts } pre).2.length = pre.length := runFrom_length plug _ pre
   have hr := (load_order_of_accepted_only plug opts pre)
   simp only [after] at hr
@@ -114,19 +114,32 @@ answers exactly what the batch run of the good texts on a fresh set answers. -/
 theorem incremental_eq_batch (plug : Registry → Plug) (opts : Opts) (h : List Op) :
     (run plug opts (h ++ [.process])).getLast? = batch plug opts (goodTexts plug opts h) ∧
     batch plug opts (goodTexts plug opts h) =
-      some (.processed (processAll (loadFiles (goodTexts plug opts h)) opts (plug (loadFiles (goodTexts plug opts h))))) := by
+      some (.processed (processAll (loadSrcs (goodTexts plug opts h)) opts (plug (loadSrcs (goodTexts plug opts h))))) := by
   have hb := good_texts_batch plug opts h
   have hr := load_order_of_accepted_only plug opts h
   simp only [after] at hb hr
   have e1 : (run plug opts (h ++ [.process])).getLast? =
-      some (.processed (processAll (loadFiles (goodTexts plug opts h)) opts (plug (loadFiles (goodTexts plug opts h))))) := by
+      some (.processed (processAll (loadSrcs (goodTexts plug opts h)) opts (plug (loadSrcs (goodTexts plug opts h))))) := by
     simp only [run, runFrom_append, runFrom_cons, runFrom_nil, step_process, List.getLast?_append, List.getLast?_singleton,
       Option.some_or, hr.1, hr.2]
   have e2 : batch plug opts (goodTexts plug opts h) =
-      some (.processed (processAll (loadFiles (goodTexts plug opts h)) opts (plug (loadFiles (goodTexts plug opts h))))) := by
+      some (.processed (processAll (loadSrcs (goodTexts plug opts h)) opts (plug (loadSrcs (goodTexts plug opts h))))) := by
     simp only [batch, run, runFrom_append, runFrom_cons, runFrom_nil, step_process, List.getLast?_append,
       List.getLast?_singleton, Option.some_or, hb.2, runFrom_opts, hr.1]
   exact ⟨e1.trans e2.symm, e2⟩
+
+/-- What loading a good source does to the registry, in terms of the two loaders of the resolver
+pipeline: a raw text is loaded by `loadText` (Load.lean: parser, AST builder, registry), a text
+given as statement trees by `loadFile` (Pipeline.lean). -/
+theorem good_source_is_pipeline_load (reg : Registry) :
+    (∀ name text, loadSrc reg (.text name text) = (loadText reg name text).1) ∧
+    (∀ f, (∃ r, tryLoad reg f = .ok r) → loadSrc reg (.stmts f true) = loadFile reg f) :=
+  ⟨loadSrc_text reg, loadSrc_stmts reg⟩
+
+/-- The Lean front end leaves the registry alone unless it answers `accepted`. -/
+theorem text_rejected_registry_unchanged (reg : Registry) (name text : List UInt8)
+    (h : (loadText reg name text).2 ≠ .accepted) : (loadText reg name text).1 = reg :=
+  loadText_rejected_reg reg name text h
 
 /-! ### reads -/
 
@@ -167,14 +180,14 @@ private def textTwo : SrcFile :=
 private def textBad : SrcFile := { name := "bad.yang", stmts := [st "bad.yang" "module" "q" 1] }
 
 private def hist : List Op :=
-  [.read "a" "/a:c", .load textA true, .read "a" "/a:c/a:x", .process, .load textA true, .load textBad false,
-   .load textTwo true, .read "nosuch" "/a:c", .load textB true, .process]
+  [.read "a" "/a:c", .load (.stmts textA true), .read "a" "/a:c/a:x", .process, .load (.stmts textA true),
+   .load (.stmts textBad false), .load (.stmts textTwo true), .read "nosuch" "/a:c", .load (.stmts textB true), .process]
 
 /-- What the caller saw of each load: the name of the text and whether it was accepted. -/
 private def loadAnswers (h : List Op) (outs : List Out) : List (String × Bool) :=
   (h.zip outs).filterMap fun (op, o) =>
     match op with
-    | .load f _ => some (f.name, match o with | .accepted => true | _ => false)
+    | .load (.stmts f _) => some (f.name, match o with | .accepted => true | _ => false)
     | _ => none
 
 /-- The history does what its name says: the duplicate, the bad text and the two-module text are
@@ -183,7 +196,7 @@ example : loadAnswers hist (run plug0 {} hist) =
     [("a.yang", true), ("a.yang", false), ("bad.yang", false), ("two.yang", false), ("b.yang", true)] := by decide
 
 /-- Its good texts are exactly the two accepted ones, in order. -/
-example : (goodTexts plug0 {} hist).map (·.name) = ["a.yang", "b.yang"] := by decide
+example : (goodTexts plug0 {} hist).map (fun | .stmts f _ => f.name | .text _ _ => "") = ["a.yang", "b.yang"] := by decide
 
 /-- The hypothesis of `failed_load_no_trace` is met at position 4 (duplicate), 5 (bad text) and
 6 (two modules, the second rejected: the first one, `z`, is not left behind). -/
@@ -199,9 +212,56 @@ example : (runFrom plug0 {} hist).2[0]? = some .noModule := rfl
 example : (runFrom plug0 {} hist).2[2]? = some .unprocessed := rfl
 example : (runFrom plug0 {} hist).2[7]? = some .noModule := rfl
 
+/-- The statement-level sources above satisfy the hypothesis of `good_source_is_pipeline_load`. -/
+example : ∃ r, tryLoad {} textA = .ok r := ⟨_, rfl⟩
+
+/-! The same with raw texts: parser, AST builder and registry of the model decide. -/
+
+private def b (s : String) : List UInt8 := s.toUTF8.toList
+
+private def rawA := b "module a { namespace \"urn:a\"; prefix a; container c { leaf x { type string; } } }"
+private def rawB := b "module b { namespace \"urn:b\"; prefix b; import a { prefix a; } augment \"/a:c\" { leaf y { type int8; } } }"
+/-- one late fault (an unknown substatement in the last statement) after a nested scope whose
+typedef cannot be resolved: the D31 shape -/
+private def rawLate := b "module n { namespace \"urn:n\"; prefix n; container c { typedef t { type nosuch; } leaf u { type t; } } leaf l { type string; frobnicate 1; } }"
+private def rawSyntax := b "module q { namespace \"urn:q\"; prefix q; leaf l { type string; }"
+private def rawTwo := b "module z { namespace \"urn:z\"; prefix z; } module a { namespace \"urn:a\"; prefix a; }"
+private def rawTrail := b "module z { namespace \"urn:z\"; prefix z; } container t { leaf q { type string; } }"
+
+private def histT : List Op :=
+  [.load (.text (b "a.yang") rawA), .process, .load (.text (b "a-again.yang") rawA), .load (.text (b "n.yang") rawLate),
+   .load (.text (b "q.yang") rawSyntax), .load (.text (b "two.yang") rawTwo), .load (.text (b "trail.yang") rawTrail),
+   .load (.text (b "b.yang") rawB), .process]
+
+private def tagT : Out → String
+  | .accepted => "accepted"
+  | .rejected (.text .rejectedSyntax) => "syntax"
+  | .rejected (.text .rejectedBuild) => "build"
+  | .rejected (.text .rejectedTop) => "top"
+  | .rejected (.text .rejectedAdd) => "add"
+  | _ => "other"
+
+private def loadTags (h : List Op) (outs : List Out) : List String :=
+  (h.zip outs).filterMap fun (op, o) => match op with | .load _ => some (tagT o) | _ => none
+
+/-- Duplicate, late fault, syntax error, two modules with a duplicate second one and a trailing
+non-module node are all rejected by the model itself, between two processing runs. -/
+example : loadTags histT (run plug0 {} histT) = ["accepted", "add", "build", "syntax", "add", "top", "accepted"] := by
+  decide +kernel
+
+/-- … and the module `z` of the two rejected two-statement texts is not left behind (D32). -/
+example : ((after plug0 {} histT).reg.getModule "z").isNone = true := by decide +kernel
+
+/-- The hypothesis of `text_rejected_registry_unchanged` on a concrete text. -/
+example : (loadText {} (b "n.yang") rawLate).2 ≠ .accepted := by
+  intro h
+  have : ((loadText {} (b "n.yang") rawLate).2 == .rejectedBuild) = true := by decide +kernel
+  rw [h] at this
+  cases this
+
 /- What the two processing runs answer (and that they differ: the second sees the augment of `b`
-in the tree of `a`) is not evaluated in the kernel; the same history is
-corpus/C18/example-history.json of the correspondence runner, where the answers of the compiled
+in the tree of `a`) is not evaluated in the kernel; the same histories are
+corpus/C18/example-history.json and example-history-texts.json of the correspondence runner, where the answers of the compiled
 model are compared with those of the real code. -/
 
 end Examples
